@@ -28,7 +28,7 @@ static uint64_t workload(uint64_t seed, int iters) {
         H3Error e = latLngToCell(&g, res, &c);
         h = fnv(h, &e, sizeof e); h = fnv(h, &c, sizeof c);
         if (e) continue;
-        switch (rnd(&r) % 9) {
+        switch (rnd(&r) % 11) {
             case 0: {   // traversal
                 int k = (int)(rnd(&r) % 4); int64_t sz; maxGridDiskSize(k, &sz);
                 H3Index *out = calloc(sz, sizeof(H3Index)); int *d = calloc(sz, sizeof(int));
@@ -75,11 +75,19 @@ static uint64_t workload(uint64_t seed, int iters) {
                 }
                 break;
             }
-            case 5: {   // multipolygon
-                int64_t sz; maxGridDiskSize(2, &sz);
-                H3Index *out = calloc(sz, sizeof(H3Index));
-                if (!gridDisk(c, 2, out)) {
-                    int n = 0; for (int64_t i = 0; i < sz; i++) if (out[i]) out[n++] = out[i];
+            case 5: case 9: {   // multipolygon: filled disk, annulus (one hole), disk with random cells removed (holes, islands)
+                int shape = (int)(rnd(&r) % 3);
+                int kk = shape == 0 ? 2 : 3 + (int)(rnd(&r) % 2);
+                int64_t sz; maxGridDiskSize(kk, &sz);
+                H3Index *out = calloc(sz, sizeof(H3Index)); int *dd = calloc(sz, sizeof(int));
+                if (!gridDiskDistances(c, kk, out, dd)) {
+                    int n = 0;
+                    for (int64_t i = 0; i < sz; i++) {
+                        if (!out[i]) continue;
+                        if (shape == 1 && dd[i] < 2) continue;              // annulus
+                        if (shape == 2 && dd[i] > 0 && dd[i] < kk && (rnd(&r) % 4) == 0) continue;   // punched
+                        out[n++] = out[i];
+                    }
                     LinkedGeoPolygon poly;
                     e = cellsToLinkedMultiPolygon(out, n, &poly);
                     h = fnv(h, &e, sizeof e);
@@ -90,7 +98,33 @@ static uint64_t workload(uint64_t seed, int iters) {
                         destroyLinkedMultiPolygon(&poly);
                     }
                 }
-                free(out); break;
+                free(out); free(dd); break;
+            }
+            case 10: {  // the rest of the API surface
+                H3Index kids[7] = {0}; int cr = res < 15 ? res + 1 : 15; int64_t ksz = 0; cellToChildrenSize(c, cr, &ksz);
+                if (ksz <= 7) cellToChildren(c, cr, kids);
+                int64_t usz = 0; e = uncompactCellsSize(&c, 1, cr, &usz); h = fnv(h, &usz, sizeof usz);
+                H3Index un[7] = {0}; if (!e && usz <= 7) { e = uncompactCells(&c, 1, un, usz, cr); h = fnv(h, un, sizeof un); }
+                H3Index cc; e = childPosToCell(0, c, cr, &cc); h = fnv(h, &cc, sizeof cc);
+                H3Index ring[6] = {0}; e = gridRingUnsafe(c, 1, ring); h = fnv(h, &e, sizeof e); if (!e) h = fnv(h, ring, sizeof ring);
+                H3Index nb[7] = {0}; gridDisk(c, 1, nb);
+                H3Index o = nb[1 + rnd(&r) % 6]; if (!o) o = nb[0];
+                H3Index edge = 0; e = cellsToDirectedEdge(c, o, &edge); h = fnv(h, &edge, sizeof edge);
+                if (!e) { CellBoundary eb; directedEdgeToBoundary(edge, &eb); h = fnv(h, eb.verts, eb.numVerts * sizeof(LatLng));
+                          int v = isValidDirectedEdge(edge); h = fnv(h, &v, sizeof v); }
+                int64_t psz = 0; e = gridPathCellsSize(c, o, &psz);
+                if (!e && psz <= 4) { H3Index path[4] = {0}; e = gridPathCells(c, o, path); h = fnv(h, path, sizeof path); }
+                H3Index vx = 0; e = cellToVertex(c, (int)(rnd(&r) % 5), &vx); h = fnv(h, &vx, sizeof vx);
+                if (!e) { LatLng vl; vertexToLatLng(vx, &vl); h = fnv(h, &vl, sizeof vl); int v = isValidVertex(vx); h = fnv(h, &v, sizeof v); }
+                CoordIJ ij = {(int)(rnd(&r) % 5) - 2, (int)(rnd(&r) % 5) - 2}; H3Index lc = 0;
+                e = localIjToCell(c, &ij, 0, &lc); h = fnv(h, &e, sizeof e); h = fnv(h, &lc, sizeof lc);
+                char buf[17]; h3ToString(c, buf, sizeof buf); H3Index back = 0; stringToH3(buf, &back); h = fnv(h, &back, sizeof back);
+                int v = isValidCell(c) + isPentagon(c) + isResClassIII(c); h = fnv(h, &v, sizeof v);
+                H3Index pents[12]; getPentagons(res, pents); h = fnv(h, pents, sizeof pents);
+                int64_t nc; getNumCells(res, &nc); h = fnv(h, &nc, sizeof nc);
+                double ar, el; getHexagonAreaAvgKm2(res, &ar); getHexagonEdgeLengthAvgM(res, &el); h = fnv(h, &ar, sizeof ar); h = fnv(h, &el, sizeof el);
+                LatLng g2 = {g.lat * 0.5, g.lng * 0.5}; double gd = greatCircleDistanceKm(&g, &g2); h = fnv(h, &gd, sizeof gd);
+                break;
             }
             case 6: {   // geometry
                 CellBoundary cb; e = cellToBoundary(c, &cb); h = fnv(h, &cb.numVerts, sizeof(int));
